@@ -25,6 +25,8 @@ package encoding
 import (
 	"bytes"
 	"encoding/json"
+	"errors"
+	"io"
 	"strconv"
 	"strings"
 
@@ -56,6 +58,15 @@ func decodeValue(val interface{}) (string, error) {
 		} else {
 			return "false", nil
 		}
+	case json.Number: // Number kept as written (plain JSON)
+		if strings.ContainsAny(string(typeValue), ".eE") {
+			f, err := typeValue.Float64()
+			if err != nil {
+				return "", schema.NewMissingValueError(nil)
+			}
+			return strconv.FormatFloat(f, 'f', -1, 64), nil
+		}
+		return string(typeValue), nil
 	case float64: // Non-empty Leaf containing number of any sort
 		// Keep any fraction so the type decides: truncating to an int
 		// turned 1.5 into the valid-looking "1".
@@ -183,8 +194,15 @@ func unmarshalJSONInternal(
 			return nil, err
 		}
 	} else {
-		if err := json.Unmarshal(json_input, &jr.decodedMsg); err != nil {
+		// Keep numbers as written: going through float64 alters every
+		// integer above 2^53 (int64/uint64 leaves are bare numbers here).
+		dec := json.NewDecoder(bytes.NewReader(json_input))
+		dec.UseNumber()
+		if err := dec.Decode(&jr.decodedMsg); err != nil {
 			return nil, err
+		}
+		if _, err := dec.Token(); err != io.EOF {
+			return nil, errors.New("invalid JSON: unexpected data after the top-level value")
 		}
 	}
 
